@@ -7,12 +7,10 @@ func runExtraEngine(name string, w *World, o *options, res *checkResult) error {
 	case "callsites":
 		w.runCallSites(o, res)
 		return nil
+	case "reloadmap":
+		return nil // runs before the contracts are verified (see runCheck)
 	}
 	return fmt.Errorf("unknown engine %q", name)
-}
-
-func tryReplay(o *options, res *checkResult, ob *Obligation, model map[string]string) map[string]any {
-	return nil
 }
 
 func cmdReplay(args []string) int { return 2 }
